@@ -956,6 +956,46 @@ CONDS = [['Pseq', [True, False], I, 0],
          ['binop', 'lt', ['Pseq', [1, 2, 3], 2, 0], 2]]
 
 
+# index alphabets of the switching constructors: out of range, negative,
+# a counter that keeps growing / falling, mixed aliases of one position
+WHICH_WIDE = [
+    ['Pseq', [0, 2, 1, 3, 0], 1, 0],
+    ['Pseq', [-1, 1, -2, 0, -3], 1, 0],
+    ['Pseries', 0, 1, 10],
+    ['Pseries', 3, -1, 8],
+    ['Pseq', [2, 0], I, 0],
+    ['Pseq', [5, -3, 4, -4, 1, 6], 1, 0],
+    ['Pseq', [0, 3, 6, 1, 4, 9, -6], 1, 0],
+    7, -1, 3,
+]
+SWITCH_LISTS = [
+    [1, 2], [1, 2, 3],
+    [['Pseq', [1, 2, 3, 4, 5, 6], 1, 0], ['Pseq', [10, 20, 30, 40, 50, 60], 1, 0]],
+    [['Pseq', [1, 2, 3], 1, 0], 9],
+    [9, ['Pseq', [1, 2], 2, 0]],
+    [['Pseq', [1, 2], 1, 0], ['Pseq', [10, 20, 30], 1, 0],
+     ['Pseries', 100, 1, I]],
+    [['Pseq', [1, 2, 3], 1, 0], ['Pseq', [1, 2, 3], 1, 0]],
+    [['Pseq', [1, 2], I, 0], ['Pn', 5, 2], 8],
+]
+
+
+def switch_space():
+    """Pswitch / Pswitch1 over the widened index alphabets: at top level,
+    under the embedding constructors (the item streams are made anew for
+    every embedding) and under the single-child uses."""
+    for h in ('Pswitch', 'Pswitch1'):
+        for lst in SWITCH_LISTS:
+            for wh in WHICH_WIDE:
+                yield [h, lst, wh]
+        for lst in SWITCH_LISTS[2:4] + SWITCH_LISTS[5:6]:
+            for wh in WHICH_WIDE[:4]:
+                x = [h, lst, wh]
+                yield from embedders_over(x)
+                yield ['Pseq', [x, x], 2, 0]
+                yield from filters_over(x)
+
+
 def filters_over(x):
     """Every single-child constructor applied to child x."""
     for r in (1, 2, I):
@@ -1179,7 +1219,7 @@ def pairs_space(pool, small, full=True):
         for b in small:
             if not (is_node(a) or is_node(b)):
                 continue
-            for wh in WHICH:
+            for wh in WHICH + (WHICH_WIDE[:4] if full else []):
                 yield ['Pswitch', [a, b], wh]
                 yield ['Pswitch1', [a, b], wh]
             for c in CONDS:
@@ -1309,6 +1349,8 @@ def _generate(tier, slice_ix=0):
         add('depth' + str(min(depth(e), 3)) + '-edgechild', e)
     for e in randkids_space():
         add('depth3-seeded-random', e)
+    for e in switch_space():
+        add('depth' + str(min(depth(e), 3)) + '-switch-index', e)
     # the two widest families: every single-child use over every widened
     # depth-1 expression, and filter over filter (depth 3)
     wide2 = [e for x in d1w
@@ -1397,7 +1439,11 @@ def main(ctx):
         'level, under each of the 8 embedding constructors, shared twice in '
         'one list, and under every single-child use; 4 unseeded random '
         'patterns under every single-child use and embedding constructor '
-        'inside a Pseed; a seed-selected 1/8 of (a) every single-child use '
+        'inside a Pseed; Pswitch/Pswitch1 over 8 item lists x 10 index '
+        'sources that leave 0..len-1 (out of range, negative, growing and '
+        'falling counters, mixed aliases of one position), also under the '
+        'embedding constructors and single-child uses; a seed-selected '
+        '1/8 of (a) every single-child use '
         'over the 639 widened depth-1 expressions and (b) depth 3 = every '
         'single-child use over 14 inner single-child constructors over 8 '
         'children. thorough runs (a) and (b) completely ((b) over 18 '
@@ -1417,8 +1463,9 @@ def main(ctx):
     ctx.assumptions += [
         'reference semantics mc/oracles/patterns_ref.py written from the '
         'SuperCollider pattern help files and this library\'s comments; '
-        "don't-cares: offsets outside the list, Pswitch index outside the "
-        'list, Pflatten on nested lists/tuples or n<1, operators on list '
+        "don't-cares: offsets outside the list, non-integer Pswitch/"
+        'Pswitch1 indices (integer indices wrap around the list, aliases '
+        'of one position share the item stream), Pflatten on nested lists/tuples or n<1, operators on list '
         'values, structure depending on random values, endless non-yielding '
         'loops, Pconst within tolerance of the sum, behaviour after the end '
         'of a stream, container type (list/tuple) of Ptuple/Pclump values, '
